@@ -418,7 +418,11 @@ var probePaths = []string{"a", "a.b", "0"}
 // loadAndRead sends one document through every loader and option set and
 // reads whatever loaded. deep = the document nests very deeply: the
 // quadratic readers are called once only.
-func loadAndRead(m *mon, doc, class string, deep bool) {
+func loadAndRead(m *mon, doc, class string, deep bool) { loadAndReadC(m, doc, class, "", deep) }
+
+// loadAndReadC: sigClass = input class that becomes part of a panic signature
+// ("" = none).
+func loadAndReadC(m *mon, doc, class, sigClass string, deep bool) {
 	res := m.res
 	if doc != "" {
 		res.Key("B|" + doc)
@@ -435,7 +439,7 @@ func loadAndRead(m *mon, doc, class string, deep bool) {
 			d := func() string { return fmt.Sprintf("%s (%s) with options %s: %s", l.name, class, o.name, short(doc)) }
 			var c *ucfg.Config
 			var err error
-			st := m.do(call{entry: l.name, bound: bound, desc: d}, func() { c, err = l.f([]byte(doc), o.opts...) })
+			st := m.do(call{entry: l.name, class: sigClass, bound: bound, desc: d}, func() { c, err = l.f([]byte(doc), o.opts...) })
 			res.SetAdd("entry_point", l.name)
 			if st != stOK || err != nil || c == nil {
 				res.Ev("documents_rejected", 1)
@@ -446,25 +450,25 @@ func loadAndRead(m *mon, doc, class string, deep bool) {
 			if deep && oi > 0 {
 				continue
 			}
-			m.do(call{entry: "Unpack", bound: bound, desc: func() string { return "into map after " + d() }}, func() {
+			m.do(call{entry: "Unpack", class: sigClass, bound: bound, desc: func() string { return "into map after " + d() }}, func() {
 				var out map[string]interface{}
 				if c.Unpack(&out, o.opts...) != nil {
 					res.Ev("reads_failed", 1)
 				}
 			})
-			m.do(call{entry: "Unpack", bound: bound, desc: func() string { return "into slice after " + d() }}, func() {
+			m.do(call{entry: "Unpack", class: sigClass, bound: bound, desc: func() string { return "into slice after " + d() }}, func() {
 				var out []interface{}
 				if c.Unpack(&out, o.opts...) != nil {
 					res.Ev("reads_failed", 1)
 				}
 			})
-			m.do(call{entry: "FlattenedKeys", bound: bound, desc: func() string { return "after " + d() }}, func() { c.FlattenedKeys(o.opts...) })
+			m.do(call{entry: "FlattenedKeys", class: sigClass, bound: bound, desc: func() string { return "after " + d() }}, func() { c.FlattenedKeys(o.opts...) })
 			for _, p := range probePaths {
 				p := p
-				m.do(call{entry: "Has", bound: bound, desc: func() string { return fmt.Sprintf("Has(%q,-1) after %s", p, d()) }}, func() { c.Has(p, -1, o.opts...) })
-				m.do(call{entry: "String", bound: bound, desc: func() string { return fmt.Sprintf("String(%q,-1) after %s", p, d()) }}, func() { c.String(p, -1, o.opts...) })
+				m.do(call{entry: "Has", class: sigClass, bound: bound, desc: func() string { return fmt.Sprintf("Has(%q,-1) after %s", p, d()) }}, func() { c.Has(p, -1, o.opts...) })
+				m.do(call{entry: "String", class: sigClass, bound: bound, desc: func() string { return fmt.Sprintf("String(%q,-1) after %s", p, d()) }}, func() { c.String(p, -1, o.opts...) })
 			}
-			m.do(call{entry: "String", bound: bound, desc: func() string { return "String(\"\",0) after " + d() }}, func() { c.String("", 0, o.opts...) })
+			m.do(call{entry: "String", class: sigClass, bound: bound, desc: func() string { return "String(\"\",0) after " + d() }}, func() { c.String("", 0, o.opts...) })
 			for _, e := range []string{"Unpack", "FlattenedKeys", "Has", "String"} {
 				res.SetAdd("entry_point", e)
 			}
